@@ -5,7 +5,7 @@ import json
 
 from coqrun import coq_list, tx
 from gen import prims, pyref, tdgen, txgen
-from gen.util import lib_vs_model, short
+from gen.util import model_over_dumps, lib_vs_model, short
 
 DRIVERS = ["C08", "C08t"]
 NEEDS = dict(cli=True, harness=True, shim=False, release=False)
@@ -84,7 +84,7 @@ def run(ctx):
 
     impl = ctx.harness([("typeddata", d) for d, *_ in docs] + [("typeddata", MAIL)])
     dumps = ctx.harness([("json.dump", d.encode()) for d, *_ in docs] + [("json.dump", MAIL.encode())])
-    mod = ctx.model(["c08_compute %s" % txgen.coq_json(du.fields[0].decode()) for du in dumps], label="C08", timeout=1800)
+    mod = model_over_dumps(ctx, dumps, "c08_compute %s", "C08", timeout=1800)
     for (d, alltypes, primary, dv, msg, cls), r, m in zip(docs, impl, mod):
         case = dict(op="TypedData", primary=primary, cls=cls, document=short(d, 400))
         ctx.count(cls)
@@ -100,6 +100,30 @@ def run(ctx):
     lib_vs_model(ctx, "digests-vs-model", dict(document="EIP-712 Mail example"), r, m)
     ctx.sample(dict(op="TypedData", document=docs[0][0][:600]))
 
+    # bare integer literals beyond 64 bits (JSON libraries read them through a floating-point parser): the document may be
+    # refused, but if it is accepted the digests are those of the EXACT integer written — never of a rounded neighbour
+    big = []
+    for x in ((1 << 64) + 1, (1 << 64) + (1 << 11) + 1, 123456789012345678901234567890, 10 ** 30 + 1, (1 << 200) + 1, (1 << 255) + 12345, 1 << 64, 10 ** 21):
+        types = {"T": [("a", "uint256"), ("b", "uint256[]"), ("s", "string")]}
+        for where in ("member", "array", "chainId"):
+            msg = {"a": x if where == "member" else 7, "b": [1, x] if where == "array" else [1], "s": "x"}
+            dom = {"name": "big", "chainId": x if where == "chainId" else 1}
+            alltypes = dict(types)
+            alltypes["EIP712Domain"] = [("name", "string"), ("chainId", "uint256")]
+            d = json.dumps({"types": {k: [{"name": n, "type": t} for n, t in v] for k, v in alltypes.items()}, "primaryType": "T", "domain": dom, "message": msg})
+            big.append((d, alltypes, dom, msg, x))
+    rb = ctx.harness([("typeddata", d) for d, *_ in big])
+    db = ctx.harness([("json.dump", d.encode()) for d, *_ in big])
+    mb = model_over_dumps(ctx, db, "c08_compute %s", "C08big")
+    for (d, alltypes, dom, msg, x), r, m in zip(big, rb, mb):
+        case = dict(op="TypedData", cls="bare-literal-beyond-64-bits", literal=str(x), document=short(d, 300))
+        ctx.count("bare-literal-beyond-64-bits")
+        ctx.distinct(d)
+        lib_vs_model(ctx, "digests-vs-model", case, r, m)
+        if r.tag == "ok" and tuple(r.fields) != pyref.eip712_digest(alltypes, "T", dom, msg):
+            ctx.violation("literal-exact-or-refused", case, "refused, or the digests of exactly %d" % x, [f.hex() for f in r.fields])
+        elif r.tag not in ("ok", "err"):
+            ctx.violation("typeddata:abnormal", case, "result or error", str(r)[:200])
     # encodeType string (hook): implementation vs model vs Python, for every struct of every graph
     calls, terms, wants = [], [], []
     for d, alltypes, primary, dv, msg, cls in docs[:: (2 if not thorough else 1)]:
